@@ -14,17 +14,17 @@ Local Open Scope Z_scope.
    ent   (t,k)     fiber t entered its k-th fiber_barrier_wait (harness event "entered round k")
    arr   (t,k,v)   fiber t's k-th call executed its fetch_add and fetched v, in execution order
    rets  (t,k,r)   fiber t's k-th call returned r
-   chain (n,t)     waiter-list entries (node, pushing fiber) in the order of the tail exchange,
-                   not yet consumed by a head update
+   chain q (n,t)   entries of waiter list q (node, pushing fiber) in the order of the tail
+                   exchange, not yet consumed by a head update
    infl            the fiber whose entry was consumed last and who has not been scheduled yet
    pw              fibers that arrived as non-serial fibers and have not been scheduled yet *)
 Record ist := { base : st;
                 ent : list (nat * nat);
                 arr : list (nat * nat * Z);
                 rets : list (nat * nat * Z);
-                chain : list (nat * nat);
-                infl : option nat;
-                pw : list nat }.
+                chain : nat -> list (nat * nat);
+                infl : nat -> option nat;
+                pw : nat -> list nat }.
 
 (* the client continuation at the bottom of a stack *)
 Definition bot (s : stack bc) : option bc :=
@@ -33,6 +33,7 @@ Definition bot (s : stack bc) : option bc :=
 Definition round_of (c : bc) : nat :=
   match c with BNext _ k => k | BArrived _ k => k | BRet _ k _ => k end.
 
+(* chain / infl / pw are indexed by the waiter list (object id) *)
 Definition lstep (x : ist) (t : nat) : ist :=
   let s := base x in
   let s' := fst (step s t) in
@@ -52,45 +53,42 @@ Definition lstep (x : ist) (t : nat) : ist :=
                | Some (BRet _ k r), None => rets x ++ [(t, k, r)]
                | _, _ => rets x
                end in
-  let '(chain', infl') :=
-      match stk s t with
-      | WXchg _ n :: _ => (chain x ++ [(n, t)], infl x)
-      | KSetHead _ _ _ _ _ :: _ => (tl (chain x), option_map snd (hd_error (chain x)))
-      | KState _ _ _ f :: _ => (chain x, if fstate (mem s) f =? ST_WAITING then infl x else None)
-      | KReady _ _ _ _ :: _ => (chain x, None)
-      | _ => (chain x, infl x)
-      end in
+  let chain' := match stk s t with
+                | WXchg q n :: _ => upd (chain x) q (chain x q ++ [(n, t)])
+                | KSetHead q _ _ _ _ :: _ => upd (chain x) q (tl (chain x q))
+                | _ => chain x
+                end in
+  let infl' := match stk s t with
+               | KSetHead q _ _ _ _ :: _ => upd (infl x) q (option_map snd (hd_error (chain x q)))
+               | KState q _ _ f :: _ => if fstate (mem s) f =? ST_WAITING then infl x else upd (infl x) q None
+               | KReady q _ _ _ :: _ => upd (infl x) q None
+               | _ => infl x
+               end in
   let pw' := match stk s t with
-             | WFAdd _ _ _ :: _ => if (word (mem s) 0 + 1) mod cnt s =? 0 then pw x else pw x ++ [t]
-             | KState _ _ _ f :: _ => if fstate (mem s) f =? ST_WAITING then pw x else remove Nat.eq_dec f (pw x)
-             | KReady _ _ _ f :: _ => remove Nat.eq_dec f (pw x)
+             | WFAdd _ _ _ :: _ =>
+                 if (word (mem s) 0 + 1) mod cnt s =? 0 then pw x
+                 else let q := lsel (two s) (cnt s) (word (mem s) 0) in upd (pw x) q (pw x q ++ [t])
+             | KState q _ _ f :: _ => if fstate (mem s) f =? ST_WAITING then pw x
+                                      else upd (pw x) q (remove Nat.eq_dec f (pw x q))
+             | KReady q _ _ f :: _ => upd (pw x) q (remove Nat.eq_dec f (pw x q))
              | _ => pw x
              end in
   {| base := s'; ent := ent'; arr := arr'; rets := rets'; chain := chain'; infl := infl'; pw := pw' |}.
 
 Lemma lstep_erase x t : base (lstep x t) = fst (step (base x) t).
-Proof.
-  unfold lstep.
-  destruct (match stk (base x) t with
-            | WXchg _ n :: _ => (chain x ++ [(n, t)], infl x)
-            | KSetHead _ _ _ _ _ :: _ => (tl (chain x), option_map snd (hd_error (chain x)))
-            | KState _ _ _ f :: _ => (chain x, if fstate (mem (base x)) f =? ST_WAITING then infl x else None)
-            | KReady _ _ _ _ :: _ => (chain x, None)
-            | _ => (chain x, infl x)
-            end) as [c i].
-  reflexivity.
-Qed.
+Proof. reflexivity. Qed.
 
-Definition iinit (count : Z) (rounds : list nat) : ist :=
-  {| base := init count rounds; ent := []; arr := []; rets := []; chain := []; infl := None; pw := [] |}.
+Definition iinit (tw : bool) (count : Z) (rounds : list nat) : ist :=
+  {| base := init tw count rounds; ent := []; arr := []; rets := [];
+     chain := fun _ => []; infl := fun _ => None; pw := fun _ => [] |}.
 
-Inductive ireach count rounds : ist -> Prop :=
-| ir_init : ireach count rounds (iinit count rounds)
-| ir_step x t : ireach count rounds x -> status_of (base x) t = SReady ->
-                ireach count rounds (lstep x t).
+Inductive ireach (tw : bool) count rounds : ist -> Prop :=
+| ir_init : ireach tw count rounds (iinit tw count rounds)
+| ir_step x t : ireach tw count rounds x -> status_of (base x) t = SReady ->
+                ireach tw count rounds (lstep x t).
 
-Lemma ireach_base count rounds x :
-  ireach count rounds x -> reachable M (init count rounds) (base x).
+Lemma ireach_base tw count rounds x :
+  ireach tw count rounds x -> reachable M (init tw count rounds) (base x).
 Proof.
   induction 1 as [|x t R IH Hs].
   - constructor.
@@ -98,11 +96,11 @@ Proof.
 Qed.
 
 (* every reachable state of the executable model carries a ghost history *)
-Lemma reachable_ireach count rounds s :
-  reachable M (init count rounds) s -> exists x, ireach count rounds x /\ base x = s.
+Lemma reachable_ireach tw count rounds s :
+  reachable M (init tw count rounds) s -> exists x, ireach tw count rounds x /\ base x = s.
 Proof.
   induction 1 as [|s t R IH Hs].
-  - exists (iinit count rounds). split; [constructor|reflexivity].
+  - exists (iinit tw count rounds). split; [constructor|reflexivity].
   - destruct IH as [x [Rx Ex]]. exists (lstep x t). split.
     + constructor; [exact Rx|]. rewrite Ex. exact Hs.
     + rewrite lstep_erase, Ex. reflexivity.
@@ -112,7 +110,7 @@ Definition igrant (x : ist) (t : nat) : ist :=
   match status_of (base x) t with SReady => lstep x t | _ => x end.
 Definition irun (x : ist) (sch : list nat) : ist := fold_left igrant sch x.
 
-Lemma ireach_irun count rounds sch : forall x, ireach count rounds x -> ireach count rounds (irun x sch).
+Lemma ireach_irun tw count rounds sch : forall x, ireach tw count rounds x -> ireach tw count rounds (irun x sch).
 Proof.
   induction sch as [|t r IH]; intros x R; cbn; auto. apply IH. unfold igrant.
   destruct (status_of (base x) t) eqn:E; auto. constructor; assumption.
@@ -137,21 +135,23 @@ Definition entered_fibers (x : ist) (k : nat) : list nat :=
 Definition arrived_fibers (x : ist) (k : nat) : list nat :=
   map (fun a => fst (fst a)) (filter (fun a => Nat.eqb (snd (fst a)) k) (arr x)).
 
-(* a fiber is inside fiber_manager_wake_from_mpsc_queue (the pop loop) *)
-Definition in_pop_loop (s : st) (t : nat) : Prop :=
-  match stk s t with
-  | KHead _ _ _ :: _ | KNext _ _ _ _ :: _ | KSetHead _ _ _ _ _ :: _ | KData _ _ _ _ _ :: _
-  | KCopy _ _ _ _ _ :: _ | KOut _ _ _ _ :: _ | KState _ _ _ _ :: _ | KReady _ _ _ _ :: _ => True
-  | YRead :: KSpin _ _ _ :: _ | YNext _ :: KSpin _ _ _ :: _ => True
-  | _ => False
+(* a fiber is inside fiber_manager_wake_from_mpsc_queue (the pop loop) of waiter list q *)
+Definition pop_list (sg : stack bc) : option nat :=
+  match sg with
+  | KHead q _ _ :: _ | KNext q _ _ _ :: _ | KSetHead q _ _ _ _ :: _ | KData q _ _ _ _ :: _
+  | KCopy q _ _ _ _ :: _ | KOut q _ _ _ :: _ | KState q _ _ _ :: _ | KReady q _ _ _ :: _ => Some q
+  | YRead :: KSpin q _ _ :: _ | YNext _ :: KSpin q _ _ :: _ => Some q
+  | _ => None
   end.
+Definition in_pop_loop (s : st) (t q : nat) : Prop := pop_list (stk s t) = Some q.
 
-(* ---- the F-C12 witness: count = 3, three fibers, two rounds each ---- *)
+(* ---- the F-C12 witness on the ORIGINAL protocol (one list): count = 3, three fibers,
+   two rounds each ---- *)
 Definition w_sched : list nat :=
   [0;0;0;0;0;0;0;0;0;0;0;0; 1;1; 2;2;2;2;2;2;2;2;2; 0;0;0;0;0;0;0;0;0;0; 2;2;2;2;2;2;2; 0;0;0;0;0;0;0;0;0]%nat.
-Definition w_state : ist := irun (iinit 3 [2;2;2]%nat) w_sched.
+Definition w_state : ist := irun (iinit false 3 [2;2;2]%nat) w_sched.
 
-Lemma w_reach : ireach 3 [2;2;2]%nat w_state.
+Lemma w_reach : ireach false 3 [2;2;2]%nat w_state.
 Proof. apply ireach_irun. constructor. Qed.
 
 Lemma w_facts :
@@ -161,20 +161,22 @@ Lemma w_facts :
   arr w_state = [(0%nat, 1%nat, 0); (1%nat, 1%nat, 1); (2%nat, 1%nat, 2); (0%nat, 2%nat, 3)].
 Proof. vm_compute. repeat split. Qed.
 
-(* the same run, read off the trace of the executable model *)
-Lemma w_trace_tail :
-  let tr := snd (run_sched M (init 3 [2;2;2]%nat) w_sched) in
-  skipn (length tr - 4) tr = [0; 2; 909; 0].
+(* the same schedule on the repaired protocol (two lists): fiber 0 sleeps in round 2
+   and the serial fiber 2 of round 1 still waits for fiber 1's entry *)
+Definition w_state2 : ist := irun (iinit true 3 [2;2;2]%nat) w_sched.
+Lemma w_facts2 : rets w_state2 = [(0%nat, 1%nat, 0)].
 Proof. vm_compute. reflexivity. Qed.
 
-(* ---- two serial fibers in the pop loop at once: count = 3, six fibers, one round ---- *)
+(* ---- more participants than count (F-C12b, outside the property's setting), repaired
+   protocol: count = 2, six fibers, one round each: the serial fibers of groups 0 and 2
+   are inside the pop loop of list 0 at the same time ---- *)
 Definition c_sched : list nat :=
-  [0;0; 1;1; 2;2;2;2; 3;3; 4;4; 5;5;5]%nat.
-Definition c_state : ist := irun (iinit 3 [1;1;1;1;1;1]%nat) c_sched.
-Lemma c_reach : ireach 3 [1;1;1;1;1;1]%nat c_state.
+  [0;0; 1;1;1;1; 2;2;2;2;2;2;2; 3;3;3;3;3;3;3;3;3;3; 4;4; 5;5;5]%nat.
+Definition c_state : ist := irun (iinit true 2 [1;1;1;1;1;1]%nat) c_sched.
+Lemma c_reach : ireach true 2 [1;1;1;1;1;1]%nat c_state.
 Proof. apply ireach_irun. constructor. Qed.
-Lemma c_facts : in_pop_loop (base c_state) 2 /\ in_pop_loop (base c_state) 5.
-Proof. vm_compute. split; exact I. Qed.
+Lemma c_facts : in_pop_loop (base c_state) 1 0 /\ in_pop_loop (base c_state) 5 0.
+Proof. vm_compute. split; reflexivity. Qed.
 
 (* ---- the property ---- *)
 (* round safety as stated (C12): nobody has returned from its k-th wait unless
@@ -213,33 +215,33 @@ Inductive yph : stack bc -> Prop :=
 | y_asleep : yph [Asleep; YLoop]
 | y_resume : yph [Resume; YLoop].
 
-(* the push part of wait_in_mpsc_queue *)
-Inductive wfr : frame bc -> Prop :=
-| w_saving : wfr (WSaving 0)
-| w_data : wfr (WData 0)
-| w_next n : wfr (WNext 0 n)
-| w_xchg n : wfr (WXchg 0 n)
-| w_link p n : wfr (WLink 0 p n).
+(* the push part of wait_in_mpsc_queue(list q) *)
+Inductive wfr (q : nat) : frame bc -> Prop :=
+| w_saving : wfr q (WSaving q)
+| w_data : wfr q (WData q)
+| w_next n : wfr q (WNext q n)
+| w_xchg n : wfr q (WXchg q n)
+| w_link p n : wfr q (WLink q p n).
 
-(* wake_from_mpsc_queue(waiters, c) *)
-Inductive kfr (c : Z) : frame bc -> Prop :=
-| k_head wc : kfr c (KHead 0 c wc)
-| k_next wc h : kfr c (KNext 0 c wc h)
-| k_sethead wc h nx : kfr c (KSetHead 0 c wc h nx)
-| k_data wc h nx : kfr c (KData 0 c wc h nx)
-| k_copy wc h d : kfr c (KCopy 0 c wc h d)
-| k_out wc h : kfr c (KOut 0 c wc h)
-| k_state wc f : kfr c (KState 0 c wc f)
-| k_ready wc f : kfr c (KReady 0 c wc f).
+(* wake_from_mpsc_queue(list q, c) *)
+Inductive kfr (q : nat) (c : Z) : frame bc -> Prop :=
+| k_head wc : kfr q c (KHead q c wc)
+| k_next wc h : kfr q c (KNext q c wc h)
+| k_sethead wc h nx : kfr q c (KSetHead q c wc h nx)
+| k_data wc h nx : kfr q c (KData q c wc h nx)
+| k_copy wc h d : kfr q c (KCopy q c wc h d)
+| k_out wc h : kfr q c (KOut q c wc h)
+| k_state wc f : kfr q c (KState q c wc f)
+| k_ready wc f : kfr q c (KReady q c wc f).
 
 Inductive Shape (count : Z) : stack bc -> Prop :=
 | sh_done : Shape count []
 | sh_start n : Shape count [Start; FC (BNext n 1)]
 | sh_fadd n k : Shape count [WFAdd 0 1 5; FC (BArrived n k)]
-| sh_wpush f n k : wfr f -> Shape count [f; FC (BRet n k 0)]
+| sh_wpush q f n k : wfr q f -> Shape count [f; FC (BRet n k 0)]
 | sh_wyield y n k : yph y -> Shape count (y ++ [FC (BRet n k 0)])
-| sh_k f n k : kfr (count - 1) f -> Shape count [f; FC (BRet n k 1)]
-| sh_kyield y wc n k : yph y -> Shape count (y ++ [KSpin 0 (count - 1) wc; FC (BRet n k 1)]).
+| sh_k q f n k : kfr q (count - 1) f -> Shape count [f; FC (BRet n k 1)]
+| sh_kyield q y wc n k : yph y -> Shape count (y ++ [KSpin q (count - 1) wc; FC (BRet n k 1)]).
 
 Definition start_stack (t n k : nat) : stack bc := snd (start t n k).
 
@@ -285,8 +287,8 @@ Proof.
     + reflexivity.
 Qed.
 
-Lemma ret_bret count m t v n k r :
-  ret bc (cret count) m t v [FC (BRet n k r)]
+Lemma ret_bret tw count m t v n k r :
+  ret bc (cret tw count) m t v [FC (BRet n k r)]
   = (m, retev t k r ++ fst (start t n (S k)), start_stack t n (S k)).
 Proof. destruct n; reflexivity. Qed.
 
@@ -302,11 +304,11 @@ Definition step_ok (count : Z) (m : kmem) (t : nat) (sg : stack bc) (res : kmem 
 
 Ltac shape_tac :=
   first [ apply start_shape
-        | solve [constructor; constructor]
+        | solve [econstructor; econstructor]
         | solve [apply (sh_wyield _ [_]); constructor]
         | solve [apply (sh_wyield _ [_; _]); constructor]
-        | solve [apply (sh_kyield _ [_]); constructor]
-        | solve [apply (sh_kyield _ [_; _]); constructor] ].
+        | solve [apply (sh_kyield _ _ [_]); constructor]
+        | solve [apply (sh_kyield _ _ [_; _]); constructor] ].
 
 Ltac slots_tac H :=
   first [ exact H
@@ -319,26 +321,26 @@ Ltac internal_tac H :=
 Ltac return_tac H n k r :=
   split; [slots_tac H | split; [shape_tac |
     right; right; right; exists n, k, r; split; [reflexivity | split; [try rewrite wake_word; reflexivity | reflexivity]]]].
-Lemma ret_bnext count m t v n :
-  ret bc (cret count) m t v [FC (BNext n 1)] = (m, fst (start t n 1), start_stack t n 1).
+Lemma ret_bnext tw count m t v n :
+  ret bc (cret tw count) m t v [FC (BNext n 1)] = (m, fst (start t n 1), start_stack t n 1).
 Proof. destruct n; reflexivity. Qed.
 
-Lemma ret_kspin count m t v c wc n k :
-  ret bc (cret count) m t v [KSpin 0 c wc; FC (BRet n k 1)]
-  = if wc <? c then (m, [], [KHead 0 c wc; FC (BRet n k 1)])
+Lemma ret_kspin tw count m t v q c wc n k :
+  ret bc (cret tw count) m t v [KSpin q c wc; FC (BRet n k 1)]
+  = if wc <? c then (m, [], [KHead q c wc; FC (BRet n k 1)])
     else (m, retev t k 1 ++ fst (start t n (S k)), start_stack t n (S k)).
 Proof. cbn [ret]. unfold kloop. destruct (wc <? c); [reflexivity|]. apply ret_bret. Qed.
 
-Lemma ksched_cases count m t c wc f e n k :
-  ksched bc (cret count) m t 0 c wc f e [FC (BRet n k 1)]
-  = if wc + 1 <? c then (wake m f, e ++ ev t 901 919 (Zn f), [KHead 0 c (wc + 1); FC (BRet n k 1)])
+Lemma ksched_cases tw count m t q c wc f e n k :
+  ksched bc (cret tw count) m t q c wc f e [FC (BRet n k 1)]
+  = if wc + 1 <? c then (wake m f, e ++ ev t 901 919 (Zn f), [KHead q c (wc + 1); FC (BRet n k 1)])
     else (wake m f, (e ++ ev t 901 919 (Zn f)) ++ retev t k 1 ++ fst (start t n (S k)), start_stack t n (S k)).
 Proof. unfold ksched, kloop. destruct (wc + 1 <? c); [reflexivity|]. rewrite ret_bret. reflexivity. Qed.
 
-Lemma kstep_cases count m t sg :
-  Shape count sg -> slots_none m -> step_ok count m t sg (kstep bc (cret count) m t sg).
+Lemma kstep_cases tw count m t sg :
+  Shape count sg -> slots_none m -> step_ok count m t sg (kstep bc (cret tw count) m t sg).
 Proof.
-  intros Sh H. destruct Sh as [|n|n k|f n k Hf|y n k Hy|f n k Hf|y wc n k Hy].
+  intros Sh H. destruct Sh as [|n|n k|q f n k Hf|y n k Hy|q f n k Hf|q y wc n k Hy].
   - (* done *) cbn. internal_tac H.
   - (* start *) cbn [kstep]. rewrite ret_bnext. cbn [step_ok].
     split; [slots_tac H | split; [shape_tac |]].
@@ -401,25 +403,17 @@ Proof.
     + cbn. internal_tac H.
     + destruct (fstate m t =? ST_SAVING).
       * cbn. internal_tac H.
-      * destruct (run_slots_cases m t [YLoop; KSpin 0 (count - 1) wc; FC (BRet n k 1)] H) as (m' & e & [E|E] & H' & W); rewrite E;
+      * destruct (run_slots_cases m t [YLoop; KSpin q (count - 1) wc; FC (BRet n k 1)] H) as (m' & e & [E|E] & H' & W); rewrite E;
           cbn [step_ok]; (split; [exact H'|split; [shape_tac|left; split; [reflexivity|rewrite W; reflexivity]]]).
     + assert (H0 : slots_none (set_fstate m t ST_WAITING)) by slots_tac H.
-      destruct (run_slots_cases _ t [YLoop; KSpin 0 (count - 1) wc; FC (BRet n k 1)] H0) as (m' & e & [E|E] & H' & W); rewrite E;
+      destruct (run_slots_cases _ t [YLoop; KSpin q (count - 1) wc; FC (BRet n k 1)] H0) as (m' & e & [E|E] & H' & W); rewrite E;
           cbn [step_ok]; (split; [exact H'|split; [shape_tac|left; split; [reflexivity|rewrite W; reflexivity]]]).
     + cbn. internal_tac H.
     + cbn. internal_tac H.
 Qed.
 
 (* projections of lstep *)
-Ltac lstep_proj x t :=
-  unfold lstep;
-  destruct (match stk (base x) t with
-            | WXchg _ n :: _ => (chain x ++ [(n, t)], infl x)
-            | KSetHead _ _ _ _ _ :: _ => (tl (chain x), option_map snd (hd_error (chain x)))
-            | KState _ _ _ f :: _ => (chain x, if fstate (mem (base x)) f =? ST_WAITING then infl x else None)
-            | KReady _ _ _ _ :: _ => (chain x, None)
-            | _ => (chain x, infl x)
-            end) as [c i]; reflexivity.
+Ltac lstep_proj x t := reflexivity.
 
 Lemma lstep_ent x t : ent (lstep x t) =
   match bot (stk (base x) t), bot (stk (fst (step (base x) t)) t) with
@@ -446,13 +440,13 @@ Definition sbit (count v : Z) : Z := if (v + 1) mod count =? 0 then 1 else 0.
 
 Lemma step_stk_other s t u : u <> t -> stk (fst (step s t)) u = stk s u.
 Proof.
-  intros N. unfold step. destruct (kstep bc (cret (cnt s)) (mem s) t (stk s t)) as [[m1 e1] s1].
+  intros N. unfold step. destruct (kstep bc (cret (two s) (cnt s)) (mem s) t (stk s t)) as [[m1 e1] s1].
   cbn. apply upd_other. exact N.
 Qed.
 Lemma step_cnt s t : cnt (fst (step s t)) = cnt s.
-Proof. unfold step. destruct (kstep bc (cret (cnt s)) (mem s) t (stk s t)) as [[m1 e1] s1]. reflexivity. Qed.
+Proof. unfold step. destruct (kstep bc (cret (two s) (cnt s)) (mem s) t (stk s t)) as [[m1 e1] s1]. reflexivity. Qed.
 Lemma step_nthr s t : nthr (fst (step s t)) = nthr s.
-Proof. unfold step. destruct (kstep bc (cret (cnt s)) (mem s) t (stk s t)) as [[m1 e1] s1]. reflexivity. Qed.
+Proof. unfold step. destruct (kstep bc (cret (two s) (cnt s)) (mem s) t (stk s t)) as [[m1 e1] s1]. reflexivity. Qed.
 
 (* the six kinds of steps, as seen on the ghost logs *)
 Definition same_logs (x x' : ist) := ent x' = ent x /\ arr x' = arr x /\ rets x' = rets x.
@@ -479,12 +473,12 @@ Lemma lstep_cases count x t :
                       rets x' = rets x ++ [(t, k, r)] /\ ent x' = ent x ++ [(t, S k)] /\ arr x' = arr x) ).
 Proof.
   intros Hc H Sh s x' s'.
-  pose proof (kstep_cases count (mem s) t (stk s t) Sh H) as K.
+  pose proof (kstep_cases (two s) count (mem s) t (stk s t) Sh H) as K.
   assert (Es' : s' = fst (step s t)) by apply lstep_erase.
   unfold same_logs. unfold x'. rewrite lstep_ent, lstep_arr, lstep_rets. fold s. rewrite <- Es'.
   assert (Est : s' = fst (step s t)) by exact Es'.
   unfold step in Est. fold s in Hc. rewrite Hc in Est.
-  destruct (kstep bc (cret count) (mem s) t (stk s t)) as [[m1 e1] s1].
+  destruct (kstep bc (cret (two s) count) (mem s) t (stk s t)) as [[m1 e1] s1].
   cbn [fst] in Est. unfold step_ok in K. destruct K as (K1 & K2 & K3).
   assert (Em : mem s' = m1) by (rewrite Est; reflexivity).
   assert (Ek : stk s' t = s1) by (rewrite Est; cbn; apply upd_same).
@@ -526,7 +520,7 @@ Record L1 (count : Z) (x : ist) : Prop := {
   l1_bot : forall t, bot_ok count x t
 }.
 
-Lemma init_l1 count rounds : L1 count (iinit count rounds).
+Lemma init_l1 tw count rounds : L1 count (iinit tw count rounds).
 Proof.
   constructor; cbn.
   - reflexivity.
@@ -653,7 +647,7 @@ Proof.
         -- intros k0. rewrite E1, in_snoc. auto.
 Qed.
 
-Theorem ireach_l1 count rounds x : ireach count rounds x -> L1 count x.
+Theorem ireach_l1 tw count rounds x : ireach tw count rounds x -> L1 count x.
 Proof. induction 1; [apply init_l1|apply l1_step; assumption]. Qed.
 Lemma sbit_cases count v : (sbit count v = 1 /\ (v + 1) mod count = 0) \/ (sbit count v = 0 /\ (v + 1) mod count <> 0).
 Proof. unfold sbit. destruct ((v + 1) mod count =? 0) eqn:E; [left|right]; split; auto; lia. Qed.
@@ -673,7 +667,7 @@ Qed.
 
 (* components of the state after a step, from the result of kstep *)
 Lemma lstep_view x t m1 e1 s1 :
-  kstep bc (cret (cnt (base x))) (mem (base x)) t (stk (base x) t) = (m1, e1, s1) ->
+  kstep bc (cret (two (base x)) (cnt (base x))) (mem (base x)) t (stk (base x) t) = (m1, e1, s1) ->
   mem (base (lstep x t)) = m1 /\ stk (base (lstep x t)) t = s1 /\
   (forall u, u <> t -> stk (base (lstep x t)) u = stk (base x) u) /\
   cnt (base (lstep x t)) = cnt (base x) /\ nthr (base (lstep x t)) = nthr (base x).
@@ -713,7 +707,7 @@ Record Simple (x : ist) : Prop := {
   sp_rets : rets x = []
 }.
 
-Lemma simple_init count rounds : Simple (iinit count rounds).
+Lemma simple_init tw count rounds : Simple (iinit tw count rounds).
 Proof. constructor; cbn; auto. intros; discriminate. Qed.
 
 Lemma simple_local_frame m m' u sg :
@@ -761,13 +755,13 @@ Lemma simple_step count x t :
 Proof.
   intros L1x Hc Hst S Hw.
   pose proof (l1_cnt _ _ L1x) as Ic. pose proof (l1_slots _ _ L1x) as Is. pose proof (l1_shape _ _ L1x t) as Sh.
-  destruct (kstep bc (cret (cnt (base x))) (mem (base x)) t (stk (base x) t)) as [[m1 e1] s1] eqn:K.
+  destruct (kstep bc (cret (two (base x)) (cnt (base x))) (mem (base x)) t (stk (base x) t)) as [[m1 e1] s1] eqn:K.
   destruct (lstep_view x t m1 e1 s1 K) as (Em & Es & Eo & _ & _).
   rewrite Ic in K. pose proof (sp_local _ S t) as Lt. pose proof (sp_pend _ S) as Sp.
   pose proof (sp_noser _ S t) as Ns.
   set (m := mem (base x)) in *.
   remember (stk (base x) t) as sg eqn:Esg.
-  destruct Sh as [|n|n k|f n k Hf|y n k Hy|f n k Hf|y wc n k Hy].
+  destruct Sh as [|n|n k|q f n k Hf|y n k Hy|q f n k Hf|q y wc n k Hy].
   - (* done *) unfold status_of in Hst. rewrite <- Esg in Hst. destruct (t <? nthr (base x))%nat; discriminate.
   - (* start *)
     cbn [kstep] in K. rewrite ret_bnext in K. injection K as <- <- <-. left.
@@ -829,12 +823,12 @@ Proof.
   destruct K as [(_ & W & _)|[(n & k & _ & _ & W & _)|[(_ & _ & W & _)|[(n & _ & _ & W & _)|[(k & r & _ & _ & W & _)|(n & k & r & _ & _ & W & _)]]]]]; lia.
 Qed.
 
-Lemma ireach_simple count rounds x : 1 <= count -> ireach count rounds x ->
+Lemma ireach_simple tw count rounds x : 1 <= count -> ireach tw count rounds x ->
   Simple x \/ count <= word (mem (base x)) 0%nat.
 Proof.
   intros Hc R. induction R as [|x t R IH Hs].
   - left. apply simple_init.
-  - pose proof (ireach_l1 _ _ _ R) as L. destruct IH as [S|W].
+  - pose proof (ireach_l1 _ _ _ _ R) as L. destruct IH as [S|W].
     + destruct (Z_lt_ge_dec (word (mem (base x)) 0%nat) count) as [Lt|Ge].
       * apply (simple_step count); assumption.
       * right. pose proof (word_mono count x t L). lia.
@@ -843,12 +837,12 @@ Qed.
 
 (* in every configuration: a fiber has returned from a wait only if count
    fetch_adds have been executed *)
-Lemma no_return_before_count count rounds x t k r :
-  1 <= count -> ireach count rounds x -> In (t, k, r) (rets x) ->
+Lemma no_return_before_count tw count rounds x t k r :
+  1 <= count -> ireach tw count rounds x -> In (t, k, r) (rets x) ->
   count <= Z.of_nat (length (arr x)).
 Proof.
-  intros Hc R H. rewrite <- (l1_word _ _ (ireach_l1 _ _ _ R)).
-  destruct (ireach_simple count rounds x Hc R) as [S|W]; [|exact W].
+  intros Hc R H. rewrite <- (l1_word _ _ (ireach_l1 _ _ _ _ R)).
+  destruct (ireach_simple tw count rounds x Hc R) as [S|W]; [|exact W].
   rewrite (sp_rets _ S) in H. destruct H.
 Qed.
 
@@ -866,7 +860,7 @@ Record SR (x : ist) : Prop := {
   sr_rets : forall t k r, In (t, k, r) (rets x) -> k = 1%nat
 }.
 
-Lemma sr_init count rounds : Forall (fun r => r = 1%nat) rounds -> SR (iinit count rounds).
+Lemma sr_init tw count rounds : Forall (fun r => r = 1%nat) rounds -> SR (iinit tw count rounds).
 Proof.
   intros F. constructor; cbn; try (intros; contradiction).
   intros t c E. injection E as <-. cbn. split; [reflexivity|].
@@ -904,14 +898,14 @@ Proof.
   - pose proof (Sb t _ B) as [Hn _]. discriminate.
 Qed.
 
-Lemma ireach_sr count rounds x :
-  Forall (fun r => r = 1%nat) rounds -> ireach count rounds x -> SR x.
+Lemma ireach_sr tw count rounds x :
+  Forall (fun r => r = 1%nat) rounds -> ireach tw count rounds x -> SR x.
 Proof.
   intros F R. induction R as [|x t R IH Hs]; [apply sr_init; exact F|].
   apply (sr_step count); auto. eapply ireach_l1; eauto.
 Qed.
 
-Lemma ireach_nthr count rounds x : ireach count rounds x -> nthr (base x) = length rounds.
+Lemma ireach_nthr tw count rounds x : ireach tw count rounds x -> nthr (base x) = length rounds.
 Proof. induction 1; [reflexivity|]. rewrite lstep_nthr. assumption. Qed.
 
 Lemma filter_all {A} (f : A -> bool) l : (forall a, In a l -> f a = true) -> filter f l = l.
@@ -932,17 +926,17 @@ Proof.
 Qed.
 
 (* exactly count fibers, one round each *)
-Lemma single_round_facts count rounds x :
+Lemma single_round_facts tw count rounds x :
   1 <= count -> length rounds = Z.to_nat count -> Forall (fun r => r = 1%nat) rounds ->
-  ireach count rounds x ->
+  ireach tw count rounds x ->
   round_safe_arrived count x /\
   Z.of_nat (length (arr x)) <= count /\
   (forall t k, In (t, k, 1) (rets x) -> k = 1%nat /\ In (t, 1%nat, count - 1) (arr x)) /\
   (forall t t' k k', In (t, k, 1) (rets x) -> In (t', k', 1) (rets x) -> t = t' /\ k = k').
 Proof.
   intros Hc Hn F R.
-  pose proof (ireach_l1 _ _ _ R) as L. pose proof (ireach_sr _ _ _ F R) as S.
-  pose proof (ireach_nthr _ _ _ R) as Nt.
+  pose proof (ireach_l1 _ _ _ _ R) as L. pose proof (ireach_sr _ _ _ _ F R) as S.
+  pose proof (ireach_nthr _ _ _ _ R) as Nt.
   assert (Ek : forall t k v, In (t, k, v) (arr x) -> k = 1%nat) by (intros t k v H; apply (sr_arr _ S _ _ _ H)).
   assert (Nf : NoDup (map (fun a => fst (fst a)) (arr x))) by (apply nodup_ffst; [exact Ek|apply L]).
   assert (Len : Z.of_nat (length (arr x)) <= count).
@@ -962,7 +956,7 @@ Proof.
     replace (count - 1) with (Z.of_nat i) by lia. exact Hv. }
   split; [|split; [exact Len|split; [exact Ser|]]].
   - intros t k [r H]. pose proof (sr_rets _ S _ _ _ H) as ->.
-    pose proof (no_return_before_count count rounds x t 1%nat r Hc R H) as Hw.
+    pose proof (no_return_before_count tw count rounds x t 1%nat r Hc R H) as Hw.
     unfold arrived_fibers. rewrite filter_all.
     + split; [exact Nf|]. rewrite map_length. exact Hw.
     + intros [[t' k'] v'] Hi. cbn. rewrite (Ek _ _ _ Hi). reflexivity.
@@ -980,9 +974,9 @@ Proof.
 Qed.
 
 (* count = 1: every call is serial; round safety is immediate *)
-Lemma round_safe_count1 rounds x : ireach 1 rounds x -> round_safe 1 x.
+Lemma round_safe_count1 tw rounds x : ireach tw 1 rounds x -> round_safe 1 x.
 Proof.
-  intros R t k [r H]. pose proof (ireach_l1 _ _ _ R) as L.
+  intros R t k [r H]. pose proof (ireach_l1 _ _ _ _ R) as L.
   destruct (l1_rets _ _ L _ _ _ H) as (v & Hv & _). pose proof (l1_ent _ _ L _ _ _ Hv) as He.
   apply entered_in in He. destruct (entered_fibers x k); [destruct He|]. cbn. lia.
 Qed.
